@@ -70,6 +70,7 @@ def build_model(seed):
         t = ent("shape", "type", m, "type")
         ent("side", "variable", t, "variable")
         ent("draw", "bound", t, "bound")
+        ent("paint", "bound", t, "bound")  # a generic binding
         f = ent("area", "proc", m, "function")
         ent("radius", "arg", f, None)  # dummy argument: documented with the procedure, not a link target
         ent("count", "variable", m, "variable")
@@ -77,10 +78,16 @@ def build_model(seed):
         ent("shape", "proc", m, "interface")
         ent("make_shape", "proc", m, "function")
     ent("lone", "type", ma, "type")  # a type without constructor interface
+    # a type that extends `shape` of its module without adding anything: the inherited component and bindings (a generic one among them) are its own
+    sq = ent("square", "type", ma, "type")
+    sq.inherits_from = [c for c in ma.children if c.name == "shape" and c.kind == "type"][0]
     setup = ent("setup", "proc", ma, "subroutine")
     ent("only_b", "proc", mb, "subroutine")
     ent("callback", "absint", ma, "absinterface")
     ent(f"lprog{sx}", "program", fb)
+    # a namelist group declared in an external procedure (no module, no program around it): a project-wide target with a page of its own
+    xp = ent(f"lext{sx}", "extproc", fb)
+    ent(f"lnl{sx}", "namelist", xp)
     # a block data unit that defines a derived type: the type is a project-wide link target with a page of its own
     bd = ent(f"lbd{sx}", "blockdata", fb)
     bt = ent("bdt", "type", bd, "type")
@@ -128,6 +135,8 @@ def lookup(model, ctx, name, q, child, cq):
         if e is None:
             return []
         out_ = [(c, None) for c in e.children]
+        if getattr(e, "inherits_from", None) is not None:
+            out_ += [(c, None) for c in e.inherits_from.children]
         if e.kind == "type" and e.parent is not None:
             # the constructor (generic interface named like the type, in the type's module) is a child of the type, reachable
             # without qualifier or as (constructor) - not as (interface)
@@ -168,6 +177,8 @@ def spellings(model, target, rng):
     """All documented spellings that should reach `target` from a context where it is the nearest candidate."""
     refs = []
     E = model["E"]
+    if target.kind == "namelist":
+        return [(target.name, None, None, None), (target.name, "namelist", None, None)]
     if target.kind in ("file", "module", "program", "absint", "blockdata") or (target.kind in ("type", "proc") and target.parent.kind in ("module", "blockdata")):
         quals = [None] + TOP_KINDS[target.kind]
         if target.kind == "proc":
@@ -199,7 +210,7 @@ def fmt(ref):
 def plan_refs(model, rng, thorough):
     """Attach reference batteries to documentation sites. Returns list of sites: dict(kind, ent|None, refs)."""
     E = model["E"]
-    targets = [e for e in E.values() if e.kind != "arg"]
+    targets = [e for e in E.values() if e.kind not in ("arg", "extproc")]
     sites = []
     k = [0]
 
@@ -214,6 +225,8 @@ def plan_refs(model, rng, thorough):
                  (model["ma"].name, None, "shape", "interface"), (model["mb"].name, "module", "shape", "type"), (model["ma"].name, None, "shape", "type")]
         pool += [(model["ma"].name, None, "count", "bound"), (model["ma"].name, "module", "area", "final"), ("shape", "type", "side", "modproc"),
                  (model["mb"].name, None, "shape", "bound"), (model["ma"].name, None, "setup", "constructor")]
+        # members reached through a type that merely inherits them (a generic binding among them)
+        pool += [("square", None, "paint", None), ("square", "type", "paint", "bound"), ("square", "type", "draw", "bound"), ("square", None, "side", "variable"), ("square", "type", "paint", None)]
         pool += [("lone", "type", "lone", "constructor"), ("lone", None, "lone", "constructor"), (model["ma"].name, None, "lone", "constructor")]
         pool += [("nosuchthing", None, None, None), ("nosuchthing", "module", None, None), (model["ma"].name, None, "nosuchchild", None),
                  ("area", "type", None, None), ("shape", "proc", None, None), ("nosuchthing", None, "init", None), ("nosuchthing", "module", "init", "subroutine")]
@@ -223,6 +236,8 @@ def plan_refs(model, rng, thorough):
             exp, fallback = lookup(model, ctx, *r)
             code = rng.random() < 0.08
             out.append({"k": k[0], "ref": fmt(r), "expected": sorted(exp), "fallback_to_parent": fallback, "code": code})
+            if r[0] == "square" and r[2]:
+                out[-1]["through_inheriting_type"] = (r[2], "bound" if r[2] in ("paint", "draw") else "variable")
         return out
 
     for e in E.values():
@@ -290,7 +305,9 @@ def render(model, sites):
         ch = {c.name + ":" + c.kind: c for c in m.children}
         t = ch["shape:type"]
         tc = {c.name: c for c in t.children}
-        L += ["type :: shape"] + doc(t) + ["real :: side"] + doc(tc["side"]) + ["contains", f"procedure :: draw => draw_impl_{m.name}"] + doc(tc["draw"]) + ["end type shape"]
+        L += ["type :: shape"] + doc(t) + ["real :: side"] + doc(tc["side"]) + ["contains", f"procedure :: draw => draw_impl_{m.name}"] + doc(tc["draw"]) + (["generic :: paint => draw"] + doc(tc["paint"]) if "paint" in tc else []) + ["end type shape"]
+        if "square:type" in ch:
+            L += ["type, extends(shape) :: square"] + doc(ch["square:type"]) + ["end type square"]
         if "lone:type" in ch:
             L += ["type :: lone"] + doc(ch["lone:type"]) + ["integer :: only_component", "end type lone"]
         L += ["integer :: count"] + doc(ch["count:variable"])
@@ -317,6 +334,9 @@ def render(model, sites):
         if m is model["mb"]:
             pg = [e for e in E.values() if e.kind == "program"][0]
             L += [f"program {pg.name}"] + doc(pg) + [f"use {model['ma'].name}", "implicit none", "call setup()", f"end program {pg.name}"]
+            xp = [e for e in E.values() if e.kind == "extproc"][0]
+            nl_ = xp.children[0]
+            L += [f"subroutine {xp.name}()", f"!! {xp.tracer} doc of an external procedure", "integer :: lnlv", f"namelist /{nl_.name}/ lnlv"] + doc(nl_) + [f"end subroutine {xp.name}"]
             bd = [e for e in E.values() if e.kind == "blockdata"][0]
             bt = bd.children[0]
             L += [f"block data {bd.name}"] + doc(bd) + ["type :: bdt", "sequence"] + doc(bt) + ["integer :: bcomp"] + doc(bt.children[0]) + ["end type bdt", "type(bdt) :: bdv", f"common /lcb{sx}/ bdv", f"end block data {bd.name}"]
@@ -489,6 +509,14 @@ def case(arg):
                             seen.add(json.dumps(kf))
                             viol.append({"kf": kf, "w": {"seed": seed, "ref": rf, "page": rel, "href": am.group(1), "error": err}})
                         continue
+                    if rf.get("through_inheriting_type") and not err:
+                        # a member reached through a type that inherits it is shown (without its text) on that type's page: the link has to
+                        # land there, on the member's anchor
+                        href_ = urllib.parse.unquote(am.group(1))
+                        tail, _, fr = href_.partition("#")
+                        want_fr = ("boundprocedure-" if rf["through_inheriting_type"][1] == "bound" else "variable-") + rf["through_inheriting_type"][0]
+                        if tail.endswith("type/square.html") and re.fullmatch(re.escape(want_fr) + r"(~\d+)?", fr.lower()):
+                            continue
                     if not (got & exp_tr):
                         kf = {"kind": "link_points_to_other_entity", **kfb}
                         if json.dumps(kf) not in seen:
